@@ -94,16 +94,16 @@ struct Sessions {
 }
 impl Space for Sessions {
     fn name(&self) -> String {
-        format!("long sessions on one object: {} rounds of every-symbol requirement+definition queries on one SymbolVersionTable (8 needed files x 8 aux, 4 definitions, 512 symbols), of every-name finds on one SysV and one GNU hash table (200 symbols), of every-offset gets on one StringTable, of get/iter on one ParsingTable, and of every accessor on one ElfBytes (tiny-full and wide objects); 4 encodings; 0 allocation calls over the whole session and the last round answers like the first", self.rounds)
+        format!("long sessions on one object: {} rounds of every-symbol requirement+definition queries on one SymbolVersionTable (8 needed files x 8 aux, 4 definitions, 512 symbols), of every-name finds on one SysV and one GNU hash table (200 symbols), of every-offset gets on one StringTable, of get/iter on one ParsingTable, and of every accessor on one ElfBytes (tiny-full and wide objects); Debug formatting of every value the API hands out, written into a stack buffer (also with string tables that are not UTF-8); 4 encodings; 0 allocation calls over the whole session and the last round answers like the first", self.rounds)
     }
     fn size(&self) -> u64 {
-        4 * 5
+        4 * 6
     }
     fn hang_secs(&self) -> u64 {
         300
     }
     fn describe(&self, idx: u64) -> Value {
-        let obj = ["SymbolVersionTable", "SysV+GNU hash tables", "StringTable+ParsingTable", "ElfBytes(tiny-full)", "ElfBytes(wide)"][(idx / 4) as usize];
+        let obj = ["SymbolVersionTable", "SysV+GNU hash tables", "StringTable+ParsingTable", "ElfBytes(tiny-full)", "ElfBytes(wide)", "Debug formatting of every public value"][(idx / 4) as usize];
         json!({"encoding": refmodel::layout::ENCS[(idx % 4) as usize].name(), "object": obj, "rounds": self.rounds})
     }
     fn run(&self, idx: u64, out: &mut Outcome) {
@@ -243,6 +243,72 @@ impl Space for Sessions {
                     (first, last, calls)
                 })
             }
+            5 => {
+                // {:?} of every value the API hands out, written into a fixed stack buffer; the string
+                // tables of the second variant carry bytes that are not UTF-8
+                struct Stack {
+                    n: usize,
+                    h: u64,
+                }
+                impl core::fmt::Write for Stack {
+                    fn write_str(&mut self, s: &str) -> core::fmt::Result {
+                        self.n += s.len();
+                        for b in s.bytes() {
+                            self.h = (self.h ^ b as u64).wrapping_mul(0x100000001b3);
+                        }
+                        Ok(())
+                    }
+                }
+                let mut variants = vec![crate::skeleton::tiny_full(enc, refmodel::image::TableOrder::Linker).0.bytes];
+                let mut v2 = variants[0].clone();
+                for i in 0..v2.len() {
+                    if v2[i] == b'm' || v2[i] == b'G' {
+                        v2[i] = 0xfe;
+                    }
+                }
+                variants.push(v2);
+                subject(|| {
+                    use core::fmt::Write;
+                    let mut w = Stack { n: 0, h: 0xcbf29ce484222325 };
+                    let mut calls = 0u64;
+                    for bytes in &variants {
+                        if let Ok(f) = elf::ElfBytes::<AnyEndian>::minimal_parse(bytes) {
+                            let _ = write!(w, "{:?}", f);
+                            let _ = write!(w, "{:?}{:?}", f.section_headers(), f.segments());
+                            let _ = write!(w, "{:?}", f.section_headers_with_strtab());
+                            let _ = write!(w, "{:?}{:?}", f.symbol_table(), f.dynamic_symbol_table());
+                            let _ = write!(w, "{:?}{:?}", f.dynamic(), f.find_common_data());
+                            let _ = write!(w, "{:?}", f.symbol_version_table());
+                            calls += 8;
+                            if let Ok(Some(t)) = f.symbol_version_table() {
+                                for i in 0..6 {
+                                    let _ = write!(w, "{:?}", t.get_requirement(i));
+                                    if let Ok(Some(d)) = t.get_definition(i) {
+                                        let _ = write!(w, "{:?}", d);
+                                        let _ = write!(w, "{:?}", d.names);
+                                    }
+                                    calls += 2;
+                                }
+                            }
+                            if let Some(sh) = f.section_headers() {
+                                for h in sh.iter() {
+                                    let _ = write!(w, "{:?}", f.section_data(&h));
+                                    let _ = write!(w, "{:?}", f.section_data_as_strtab(&h));
+                                    let _ = write!(w, "{:?}", f.section_data_as_notes(&h).map(|mut it| { let first = it.next(); (first, it) }));
+                                    let _ = write!(w, "{:?}", f.section_data_as_rels(&h));
+                                    let _ = write!(w, "{:?}", f.section_data_as_relas(&h));
+                                    calls += 5;
+                                }
+                                let _ = write!(w, "{:?}", sh.iter());
+                            }
+                            if let Ok(c) = f.find_common_data() {
+                                let _ = write!(w, "{:?}{:?}", c.sysv_hash, c.gnu_hash);
+                            }
+                        }
+                    }
+                    (w.h, w.h, calls + (w.n as u64 & 0))
+                })
+            }
             _ => {
                 let bytes = if what == 3 { crate::skeleton::tiny_full(enc, refmodel::image::TableOrder::Linker).0.bytes } else { crate::skeleton::wide_shapes()[(idx % 4) as usize * 2].bytes.clone() };
                 let reps = (rounds / 8).max(4);
@@ -272,7 +338,7 @@ impl Space for Sessions {
                 out.transitions += calls;
                 if st.calls > 0 {
                     out.violate(
-                        format!("alloc:long session on one {}", ["SymbolVersionTable", "hash table", "StringTable/ParsingTable", "ElfBytes", "ElfBytes"][what]),
+                        format!("alloc:long session on one {}", ["SymbolVersionTable", "hash table", "StringTable/ParsingTable", "ElfBytes", "ElfBytes", "Debug-formatted value"][what]),
                         format!("{} heap allocation call(s), largest {} bytes, during {} rounds of queries on one object ({})", st.calls, st.max_req, rounds, enc.name()),
                     );
                 }
